@@ -161,6 +161,18 @@ CLAIMED = {
         note='Partial: maximality under the non-transitive tolerance and outline extraction are validated, not proved. Trusted: Coq '
              'kernel, hand model + correspondence, harness.',
         technique='machine-checked Coq proof about a hand-written executable model + vm_compute correspondence; exact search'),
+    'C20': dict(
+        text='Partial. Proved for the generated grid kernels (Mesh2D._grid_faces / _grid_vertices, translated from the source on every '
+             'run) for every grid size: face and vertex lists equal the closed form; face number i*ny+j has indices (c, c+ny+1, c+ny+2, '
+             'c+1) with c = i(ny+1)+j and vertex number i(ny+1)+j lies at base + (i dx, j dy), so every face is the dx x dy cell (i,j), '
+             'all cells are congruent and there are nx*ny of them. Searched: from_grid / from_polygon_grid / Face3D.mesh_grid (star, comb '
+             'and holed shapes in rational planes, cell sizes 1/40..2x the extent, offsets, flip, centroids on/off) - congruent cells '
+             'of the exactly computed adjusted size, corners inside the source shape (exact rational containment), reported areas / '
+             'centroids / normals equal recomputed ones, normal direction; random removal patterns and triangulation keep per-face '
+             'data aligned; OBJ round trips exact and ASCII STL round trips to 1e-6 for triangle, quad and mixed meshes.',
+        note='Partial: inside filtering, removal and file I/O are validated, not proved; mesh colours are not exercised (ladybug.color '
+             'is absent here). Trusted: Coq kernel, py2coq, harness oracles.',
+        technique=T_Q),
     'C16': dict(
         text='Proved for every orthonormal plane frame: the generated plane embedding is an isometry and preserves dot products; the '
              '3D closest-point-on-segment routine applied to embedded data returns the embedded result of the 2D routine (same '
